@@ -20,6 +20,11 @@ type tmpl struct {
 	name    string
 	augment bool // also a C07 case
 	files   []string
+	// clean templates hold no fault at all: the late step (a deviation) is legitimate, must
+	// not be reported, must not strand an error anywhere, and must take effect (gone names
+	// the rpc or action whose input or output it removes, as a path of child names).
+	clean bool
+	gone  []string
 }
 
 const h = `namespace "urn:%s"; prefix %s;`
@@ -27,38 +32,59 @@ const h = `namespace "urn:%s"; prefix %s;`
 func hdr(n string) string { return fmt.Sprintf(h, n, n) }
 
 var templates = []tmpl{
-	{"two-modules-augment-same-name", true, []string{
+	{name: "two-modules-augment-same-name", augment: true, files: []string{
 		`module m { ` + hdr("m") + ` container c { %PAD } }`,
 		`module a { ` + hdr("a") + ` import m { prefix m; } augment /m:c { leaf x { type string; } } }`,
 		`module b { ` + hdr("b") + ` import m { prefix m; } augment /m:c { leaf x { type int8; } } }`}},
-	{"augment-collides-with-existing-child", true, []string{
+	{name: "augment-collides-with-existing-child", augment: true, files: []string{
 		`module m { ` + hdr("m") + ` grouping g { leaf x { type string; } } container c { uses g; %PAD } }`,
 		`module a { ` + hdr("a") + ` import m { prefix m; } augment /m:c { container x { } } }`}},
-	{"augment-collides-inside-rpc-input", true, []string{
+	{name: "augment-collides-inside-rpc-input", augment: true, files: []string{
 		`module m { ` + hdr("m") + ` rpc r { input { leaf x { type string; } %PAD } } }`,
 		`module a { ` + hdr("a") + ` import m { prefix m; } augment /m:r/m:input { leaf x { type string; } } }`}},
-	{"augment-target-is-a-leaf", true, []string{
+	{name: "augment-target-is-a-leaf", augment: true, files: []string{
 		`module m { ` + hdr("m") + ` container c { leaf l { type string; } %PAD } augment /m:c/m:l { leaf y { type string; } } }`}},
-	{"augment-target-is-anyxml", true, []string{
+	{name: "augment-target-is-anyxml", augment: true, files: []string{
 		`module m { ` + hdr("m") + ` anyxml ax; anydata ad; %PAD }`,
 		`module a { ` + hdr("a") + ` import m { prefix m; } augment /m:%ANY { leaf y { type string; } } }`}},
-	{"augment-target-missing-after-chain", true, []string{
+	{name: "augment-target-missing-after-chain", augment: true, files: []string{
 		`module m { ` + hdr("m") + ` container c { %PAD } augment /m:c { container a1 { } } }`,
 		`module a { ` + hdr("a") + ` import m { prefix m; } augment /m:c/m:a1/m:nothere { leaf y { type string; } } }`}},
-	{"augment-bogus-step-under-rpc", true, []string{
+	{name: "augment-bogus-step-under-rpc", augment: true, files: []string{
 		`module m { ` + hdr("m") + ` rpc r { input { leaf x { type string; } %PAD } } augment /m:r/m:bogus/m:input { leaf y { type string; } } }`}},
-	{"unknown-type-inside-rpc-io", false, []string{
+	{name: "unknown-type-inside-rpc-io", augment: false, files: []string{
 		`module m { ` + hdr("m") + ` rpc r { %IO { leaf x { type nosuchtype; } %PAD } } }`}},
-	{"bad-range-inside-action-output", false, []string{
+	{name: "bad-range-inside-action-output", augment: false, files: []string{
 		`module m { ` + hdr("m") + ` yang-version 1.1; container c { action a { output { leaf x { type uint8 { range "0..300"; } } %PAD } } } }`}},
-	{"unknown-grouping-inside-rpc-input", false, []string{
+	{name: "unknown-grouping-inside-rpc-input", augment: false, files: []string{
 		`module m { ` + hdr("m") + ` rpc r { input { uses nosuchgrouping; %PAD } } }`}},
-	{"fault-inside-grouping-action-used-twice", false, []string{
+	{name: "fault-inside-grouping-action-used-twice", augment: false, files: []string{
 		`module m { ` + hdr("m") + ` yang-version 1.1; grouping g { action a { input { leaf x { type nosuchtype; } } } } container u1 { uses g; } container u2 { uses g; %PAD } }`}},
-	{"deviate-replace-unresolvable-type", false, []string{
+	{name: "deviate-replace-unresolvable-type", augment: false, files: []string{
 		`module m { ` + hdr("m") + ` leaf l { type string; } %PAD }`,
 		`module d { ` + hdr("d") + ` import m { prefix m; } deviation /m:l { deviate replace { type nosuchtype; } } }`}},
-	{"not-supported-then-augment-of-removed-node", true, []string{
+	{name: "conflicting-augments-into-one-of-several-uses-of-a-grouping", augment: true, files: []string{
+		`module m { ` + hdr("m") + ` grouping g { container lane { leaf id { type string; } } } container s0 { uses g; } container s1 { uses g; } container s2 { uses g; } container s3 { uses g; } container s4 { uses g; } container s5 { uses g; } container s6 { uses g; } container s7 { uses g; %PAD } }`,
+		`module a { ` + hdr("a") + ` import m { prefix m; } augment /m:s%DIGIT/m:lane { leaf power { type string; } } }`,
+		`module b { ` + hdr("b") + ` import m { prefix m; } augment /m:s%DIGIT/m:lane { leaf power { type int8; } } }`}},
+	{name: "conflicting-augments-into-the-output-copy-of-a-grouping", augment: true, files: []string{
+		`module m { ` + hdr("m") + ` grouping g { container job { leaf id { type string; } } } rpc start { input { uses g; } output { uses g; %PAD } } }`,
+		`module a { ` + hdr("a") + ` import m { prefix m; } augment /m:start/m:%IO/m:job { leaf owner { type string; } } }`,
+		`module b { ` + hdr("b") + ` import m { prefix m; } augment /m:start/m:%IO/m:job { leaf owner { type int8; } } }`}},
+	{name: "augment-collides-and-the-target-is-then-removed-by-a-deviation", augment: true, files: []string{
+		`module m { ` + hdr("m") + ` container top { container box { leaf x { type string; } } %PAD } }`,
+		`module a { ` + hdr("a") + ` import m { prefix m; } augment /m:top/m:box { leaf x { type int8; } } }`,
+		`module d { ` + hdr("d") + ` import m { prefix m; } deviation %GONE { deviate not-supported; } }`}},
+	{name: "augment-without-nodes-of-a-target-that-cannot-have-children", augment: true, files: []string{
+		`module m { ` + hdr("m") + ` yang-version 1.1; container top { leaf lf { type string; } leaf-list ll { type string; } anyxml ax; anydata ad; %PAD } }`,
+		`module a { ` + hdr("a") + ` import m { prefix m; } grouping nothing { description "no data nodes"; } augment /m:top/m:%LEAFY { %EMPTYBODY } }`}},
+	{name: "not-supported-on-rpc-input-or-output", clean: true, gone: []string{"r"}, files: []string{
+		`module m { ` + hdr("m") + ` rpc r { input { leaf i { type string; } } output { leaf o { type string; } } } %PAD }`,
+		`module d { ` + hdr("d") + ` import m { prefix m; } deviation /m:r/m:%IO { deviate not-supported; } }`}},
+	{name: "not-supported-on-action-input-or-output-of-one-use", clean: true, gone: []string{"u1", "a"}, files: []string{
+		`module m { ` + hdr("m") + ` yang-version 1.1; grouping g { action a { input { leaf i { type string; } } output { leaf o { type string; } } } } container u1 { uses g; } container u2 { uses g; %PAD } }`,
+		`module d { ` + hdr("d") + ` import m { prefix m; } deviation /m:u1/m:a/m:%IO { deviate not-supported; } }`}},
+	{name: "not-supported-then-augment-of-removed-node", augment: true, files: []string{
 		`module m { ` + hdr("m") + ` container c { container inner { } %PAD } }`,
 		`module d { ` + hdr("d") + ` import m { prefix m; } deviation /m:c/m:inner { deviate not-supported; } deviation /m:c/m:inner { deviate not-supported; } }`}},
 }
@@ -92,16 +118,28 @@ func Run(j *job.Job, s *job.Sink) {
 		r := prng.For(j.Seed, "latefaults", j.Family, c)
 		t := templates[int(c)%len(templates)]
 		if j.Property == "C07" && !t.augment {
-			t = templates[int(c)%7]
+			var aug []tmpl
+			for _, x := range templates {
+				if x.augment {
+					aug = append(aug, x)
+				}
+			}
+			t = aug[int(c)%len(aug)]
 		}
 		pads := []string{"", "leaf pad1 { type string; }", "container pad2 { leaf p { type int8; } }", "choice pad3 { leaf q { type string; } }", "leaf-list pad4 { type string; }"}
 		var files []map[string]string
 		order := r.Perm(len(t.files))
+		io := []string{"input", "output"}[r.Intn(2)]
+		digit := fmt.Sprint(r.Intn(8))
 		for _, i := range order {
 			txt := t.files[i]
 			txt = strings.ReplaceAll(txt, "%PAD", pads[r.Intn(len(pads))])
 			txt = strings.ReplaceAll(txt, "%ANY", []string{"ax", "ad"}[r.Intn(2)])
-			txt = strings.ReplaceAll(txt, "%IO", []string{"input", "output"}[r.Intn(2)])
+			txt = strings.ReplaceAll(txt, "%IO", io)
+			txt = strings.ReplaceAll(txt, "%DIGIT", digit)
+			txt = strings.ReplaceAll(txt, "%GONE", []string{"/m:top/m:box", "/m:top"}[r.Intn(2)])
+			txt = strings.ReplaceAll(txt, "%LEAFY", []string{"lf", "ll", "ax", "ad"}[r.Intn(4)])
+			txt = strings.ReplaceAll(txt, "%EMPTYBODY", []string{"uses nothing;", "description \"nothing\";", "when \"../m:lf\";", "uses nothing; reference \"r\";", ""}[r.Intn(5)])
 			files = append(files, map[string]string{"name": fmt.Sprintf("f%d.yang", i), "text": txt})
 		}
 		// One case in three puts the fault into the older of two loaded revisions of m: m
@@ -138,6 +176,10 @@ func Run(j *job.Job, s *job.Sink) {
 				}
 			}
 			errs := ms.Process()
+			if len(errs) > 0 && t.clean {
+				s.Violation(c, j.CaseID(c), j.Property+".latefault", "spurious-error", fmt.Sprintf("%s: %v", t.name, errs[0]), cs, map[string]any{"template": t.name})
+				return
+			}
 			if len(errs) > 0 {
 				s.Count("reported", 1)
 				return
@@ -149,6 +191,28 @@ func Run(j *job.Job, s *job.Sink) {
 						stranded = x
 					}
 				}
+			}
+			if t.clean && stranded == "" {
+				// the deviation took effect: the named input or output is gone, the other stays
+				mname := "m"
+				if twoRevs {
+					mname = "m@2019-01-01"
+				}
+				e := yang.ToEntry(ms.Modules[mname])
+				for _, st := range t.gone {
+					if e != nil {
+						e = e.Dir[st]
+					}
+				}
+				switch {
+				case e == nil || e.RPC == nil:
+					s.Violation(c, j.CaseID(c), j.Property+".latefault", "deviation-not-applied", t.name+": the rpc or action is gone altogether", cs, map[string]any{"template": t.name})
+				case io == "input" && (e.RPC.Input != nil || e.RPC.Output == nil), io == "output" && (e.RPC.Output != nil || e.RPC.Input == nil):
+					s.Violation(c, j.CaseID(c), j.Property+".latefault", "deviation-not-applied", fmt.Sprintf("%s: after deviate not-supported on the %s: input present %v, output present %v", t.name, io, e.RPC.Input != nil, e.RPC.Output != nil), cs, map[string]any{"template": t.name})
+				default:
+					s.Count("clean_templates_held", 1)
+				}
+				return
 			}
 			if stranded != "" {
 				s.Violation(c, j.CaseID(c), j.Property+".latefault", "clean-result-with-stranded-error", fmt.Sprintf("%s: Process returned no error, yet %s", t.name, strings.SplitN(stranded, "\n", 2)[0]), cs, map[string]any{"template": t.name})
